@@ -3,6 +3,8 @@ From Coq Require Import ZArith List Bool Lia Sorting.Sorted Sorting.Permutation.
 From Coq Require Import ZifyBool.
 From Geo Require Import Base.GoPrim Gen.CellIDCov Model.Coverer.
 From Geo Require Import Proofs.C05_CellFacts Proofs.C05_CellUnion Proofs.C05_Coverer.
+From Geo Require Import Gen.CellID.  (* s2_CellID_Level *)
+From Geo Require Import Gen.CellIDFull.  (* s2_CellID_CommonAncestorLevel *)
 Import ListNotations.
 Local Open Scope Z_scope.
 
